@@ -117,6 +117,9 @@ Definition build_entry (e : sdentry) : result bytes :=
   | None => Err EValue
   | Some (oi1, oi2, no1, no2) =>
       if negb ((no1 <? 16) && (no2 <? 16)) then Err EStruct else
+      (* Subscribe / SubscribeAck: 12 reserved bits, counter (4) and eventgroup id (16) - repaired defect F19 *)
+      if ((e_type e =? ET_Subscribe) || (e_type e =? ET_SubscribeAck)) && negb (N.land (e_val e) 4293918720 =? 0)
+      then Err EStruct else
       pack fmt_sdentry
         [VI (e_type e); VI oi1; VI oi2; VI (N.lor (N.shiftl no1 4) no2); VI (e_sid e); VI (e_iid e);
          VI (e_maj e); VI (N.shiftr (e_ttl e) 16); VI (N.land (e_ttl e) 65535); VI (e_val e)]
